@@ -9,6 +9,7 @@ import (
 	"go/constant"
 	"go/types"
 	"os"
+	"sort"
 	"strings"
 
 	"golang.org/x/tools/go/packages"
@@ -82,6 +83,12 @@ func openFlags(info *types.Info, e ast.Expr) (string, bool, bool) {
 		return "non-constant", true, false
 	}
 	v, _ := constant.Int64Val(tv.Value)
+	names, write := flagNames(v)
+	return names, write, true
+}
+
+// flagNames prints an os.OpenFile flag value symbolically and says whether it opens for writing.
+func flagNames(v int64) (string, bool) {
 	var names []string
 	acc := v & int64(os.O_RDONLY|os.O_WRONLY|os.O_RDWR)
 	switch acc {
@@ -101,7 +108,45 @@ func openFlags(info *types.Info, e ast.Expr) (string, bool, bool) {
 		}
 	}
 	write := acc != int64(os.O_RDONLY) || v&int64(os.O_CREATE|os.O_TRUNC|os.O_APPEND) != 0
-	return strings.Join(names, "|"), write, true
+	return strings.Join(names, "|"), write
+}
+
+// pathFlags: for an OpenFile call whose flags are not a constant expression, the values the flags
+// evaluate to along the enumerated paths of the enclosing function (a local built up conditionally:
+// flags := A; if w { flags = A|B }). ok is false when some path leaves them symbolic.
+func pathFlags(p *packages.Package, fd *ast.FuncDecl, call *ast.CallExpr, argIdx int) (vals []int64, ok bool) {
+	d := newDT(p.TypesInfo)
+	d.paths = nil
+	d.stmts(seedEnv(d, fd), fd.Body.List, func(q *dtPath) { d.finish(q, "end") })
+	if d.overflow {
+		return nil, false
+	}
+	known := map[string]int64{"os.O_RDONLY": int64(os.O_RDONLY), "os.O_WRONLY": int64(os.O_WRONLY), "os.O_RDWR": int64(os.O_RDWR), "os.O_APPEND": int64(os.O_APPEND),
+		"os.O_CREATE": int64(os.O_CREATE), "os.O_EXCL": int64(os.O_EXCL), "os.O_SYNC": int64(os.O_SYNC), "os.O_TRUNC": int64(os.O_TRUNC)}
+	seen := map[int64]bool{}
+	n := 0
+	for _, q := range d.paths {
+		for _, c := range q.Calls {
+			if c.Pos != call.Pos() || argIdx >= len(c.Args) {
+				continue
+			}
+			n++
+			var v int64
+			for _, t := range strings.Split(c.Args[argIdx], " | ") {
+				k, isKnown := known[strings.TrimSpace(t)]
+				if !isKnown {
+					return nil, false
+				}
+				v |= k
+			}
+			if !seen[v] {
+				seen[v] = true
+				vals = append(vals, v)
+			}
+		}
+	}
+	sort.Slice(vals, func(i, j int) bool { return vals[i] < vals[j] })
+	return vals, n > 0
 }
 
 // effectSites lists mutator call sites (and packages.Load, which runs `go list`) in a package.
@@ -132,15 +177,28 @@ func effectSites(r *Repo, p *packages.Package) []effectSite {
 					s := effectSite{Func: funcKey(p, fd), Chain: ownerChain(p, fd), Callee: name, Write: true, Pos: r.Pos(call.Pos()), Call: call}
 					if fn.Name() == "OpenFile" {
 						var fe ast.Expr
+						feIdx := -1
 						sig := fn.Type().(*types.Signature)
 						for i := 0; i < sig.Params().Len() && i < len(call.Args); i++ {
 							if b, ok := sig.Params().At(i).Type().Underlying().(*types.Basic); ok && b.Kind() == types.Int {
-								fe = call.Args[i]
+								fe, feIdx = call.Args[i], i
 								break
 							}
 						}
 						if fe != nil {
-							s.Flags, s.Write, _ = openFlags(info, fe)
+							var constant bool
+							s.Flags, s.Write, constant = openFlags(info, fe)
+							if !constant {
+								// one site per value the flags take along the function's paths
+								if vals, ok := pathFlags(p, fd, call, feIdx); ok {
+									for _, v := range vals {
+										sv := s
+										sv.Flags, sv.Write = flagNames(v)
+										out = append(out, sv)
+									}
+									return true
+								}
+							}
 						} else {
 							s.Flags = "unknown"
 						}
